@@ -113,6 +113,7 @@ var propOverrides = map[string]func(*propCfg){
 	"C02": func(c *propCfg) { c.quickRuns, c.quickSecs = 1500, 100 },
 	"C39": func(c *propCfg) { c.quickRuns, c.quickSecs = 800, 90 },
 	"C07": func(c *propCfg) { c.quickRuns, c.quickSecs = 700, 110 },
+	"C12": func(c *propCfg) { c.quickRuns, c.quickSecs, c.wallLimit = 400, 120, 150 * time.Second },
 	"C13": func(c *propCfg) { c.quickRuns, c.quickSecs = 600, 110 },
 	"C14": func(c *propCfg) { c.quickRuns, c.quickSecs = 1200, 110 },
 	"C21": func(c *propCfg) { c.quickRuns, c.quickSecs = 1500, 100 },
@@ -403,10 +404,13 @@ func (a *agg) add(prop string, p *plan.Plan, res *plan.Result) {
 	if len(a.samples) < 3 {
 		a.samples = append(a.samples, map[string]any{"seed": p.Seed, "knobs": p.K, "actors": summarizeActors(p), "faults": p.Faults, "events": p.Events, "stats": res.Stats, "trace": res.TraceHash})
 	}
+	// one entry per distinct class of a run, so that a recorded (known)
+	// finding firing first does not hide another class in the same run
+	seenCls := map[string]bool{}
 	for _, v := range res.Violations {
-		if judges(prop, v.Class) {
+		if judges(prop, v.Class) && !seenCls[v.Class] && len(seenCls) < 6 {
+			seenCls[v.Class] = true
 			a.viols = append(a.viols, found{p, res, v})
-			break
 		}
 	}
 	for _, v := range res.Violations {
